@@ -204,7 +204,7 @@ func VerifC05YExpt(bi int) {
 		}
 	}
 	vrt.Carve("C05-y-expt-bignum-or-ratio-base-float", !isFix)
-	vrt.Carve("C05-y-expt-negative-exponent-float", isFix && e < 0 && !unit)
+	vrt.Carve("C05-y-expt-fixnum-negative-exponent-float", isFix && e < 0 && !unit)
 	vrt.Carve("C05-y-expt-through-float", isFix && e >= 0 && (zzC05YAbs(want.n).Cmp(zzC05YTwo53) > 0 || (base.n.Sign() == 0 && e > 0)))
 	out := zzC05Call("expt", bo, slip.Fixnum(e))
 	vrt.Reach("called")
@@ -504,7 +504,8 @@ func VerifC05YConv(fn int, i int) {
 			back = zzC05Call("float", out.one)
 		}
 		// 1/3 needs 16 significant decimal digits, 5e-324 is below the 1e-18 the decimal loop reaches
-		vrt.Carve("C05-y-rationalize-not-within-float-accuracy", (fn == 1 && (i == 10 || i == 13)) || (fn == 3 && i == 7))
+		vrt.Carve("C05-y-rationalize-not-within-float-accuracy", fn == 1 && i == 10)
+		vrt.Carve("C05-y-rationalize-beyond-decimal-loop-scaled", (fn == 1 && i == 13) || (fn == 3 && i == 7))
 		vrt.Assert(back.class == 0, "float of the rational signalled")
 		bf, okf := zzC05YFloatOf(back.one)
 		vrt.Assert(okf && bf == f, "converting the rational back does not give the same float")
